@@ -51,7 +51,7 @@ Print Assumptions C12_pkce_plain_limit.
 (* ---- the product.
    Full statement (FALSE of the faithful model of the current tree, witnesses below):
      Theorem C12_product : forall c i, in_product c -> completes c i = true.
-   What holds: a flow fails to complete exactly when one of ten NAMED limits applies (limits c i), for every
+   What holds: a flow fails to complete exactly when one of the NAMED limits (ten on the recorded tree; each repaired_* flag removes its own) applies (limits c i), for every
    configuration of the product and every input; in particular every cell outside the limits completes. *)
 Theorem C12_product_char : forall c i, in_product c -> (flow_outcome c i = Completed <-> limits c i = false).
 Proof. exact product_char. Qed.
@@ -72,7 +72,7 @@ Theorem C12_factor : forall c i,
     && par_claims_ok (c_tr c) (i_claims i)
     && grpC_ok (c_rt c) (c_idt_sig c)
     && idt_hashes_ok (c_rt c)
-    && (idt_enc_front_ok (c_rt c) (c_idt_enc c) && idt_enc_token_ok (c_rt c) (c_idt_enc c))
+    && grpI_ok (c_rt c) (c_idt_enc c) (i_secret_len i)
     && ui_sig_ok (c_rt c) (c_ui_sig c)
     && ui_enc_ok (c_rt c) (c_ui_enc c) (i_secret_len i).
 Proof. exact checks_factor. Qed.
@@ -84,7 +84,9 @@ Theorem C12_independent : forall rt rm auth a1 r1 a2 r2 sig e us ue tr p i,
 Proof. exact outcome_independent. Qed.
 Print Assumptions C12_independent.
 
-(* ---- witnesses: one cell of the product per limit (the finding signatures of the driver) *)
+(* ---- witnesses: one cell of the product per limit (the finding signatures of the driver).  Where a repair exists
+        (the repaired_* flags of Model/Interop.v) the statement covers both worlds: the cell stops at the named place
+        without the repair and completes with it. *)
 Definition base_cfg : cfg :=
   mkCfg (PS "code") None (PS "client_secret_basic") false false (PS "RS256") None None None TPlain None.
 Definition base_inp : inp := mkInp false 32 false true false.
@@ -113,13 +115,14 @@ Print Assumptions C12_refuted_mode.
 Theorem C12_refuted_hs_id_token :
   let c := mkCfg (PS "code") None (PS "client_secret_basic") false false (PS "HS256") None None None TPlain None in
   let c' := mkCfg (PS "id_token") None (PS "client_secret_basic") false false (PS "HS256") None None None TPlain None in
-  in_product c /\ flow_outcome c base_inp = FailAt TokenEp /\ in_product c' /\ flow_outcome c' base_inp = FailAt AuthzProcess.
+  in_product c /\ flow_outcome c base_inp = (if repaired_hs_sign then Completed else FailAt TokenEp)
+  /\ in_product c' /\ flow_outcome c' base_inp = (if repaired_hs_sign then Completed else FailAt AuthzProcess).
 Proof. split; [in_prod|split; [vm_compute; reflexivity|split; [in_prod|vm_compute; reflexivity]]]. Qed.
 Print Assumptions C12_refuted_hs_id_token.
 
 Theorem C12_refuted_hs_userinfo :
   let c := mkCfg (PS "code") None (PS "client_secret_basic") false false (PS "RS256") None (Some (PS "HS256")) None TPlain None in
-  in_product c /\ flow_outcome c base_inp = FailAt UserinfoEp.
+  in_product c /\ flow_outcome c base_inp = (if repaired_hs_sign then Completed else FailAt UserinfoEp).
 Proof. split; [in_prod|vm_compute; reflexivity]. Qed.
 Print Assumptions C12_refuted_hs_userinfo.
 
@@ -133,19 +136,21 @@ Print Assumptions C12_refuted_kw_secret.
 Theorem C12_refuted_byref_nonce :
   let c := mkCfg (PS "code id_token") None (PS "client_secret_basic") false false (PS "RS256") None None None TRequestUri None in
   let c' := mkCfg (PS "id_token") None (PS "client_secret_basic") false false (PS "RS256") None None None TPar None in
-  in_product c /\ flow_outcome c base_inp = FailAt AuthzParse /\ in_product c' /\ flow_outcome c' base_inp = FailAt AuthzParse.
+  in_product c /\ flow_outcome c base_inp = (if repaired_byref then Completed else FailAt AuthzParse)
+  /\ in_product c' /\ flow_outcome c' base_inp = (if repaired_byref then Completed else FailAt AuthzParse).
 Proof. split; [in_prod|split; [vm_compute; reflexivity|split; [in_prod|vm_compute; reflexivity]]]. Qed.
 Print Assumptions C12_refuted_byref_nonce.
 
 Theorem C12_refuted_byref_consent :
   let c := mkCfg (PS "code") None (PS "client_secret_basic") false false (PS "RS256") None None None TPar None in
-  in_product c /\ flow_outcome c (mkInp true 32 false true false) = FailAt AuthzParse /\ flow_outcome c base_inp = Completed.
+  in_product c /\ flow_outcome c (mkInp true 32 false true false) = (if repaired_byref then Completed else FailAt AuthzParse)
+  /\ flow_outcome c base_inp = Completed.
 Proof. split; [in_prod|split; vm_compute; reflexivity]. Qed.
 Print Assumptions C12_refuted_byref_consent.
 
 Theorem C12_refuted_par_jwt :
   let c := mkCfg (PS "code") None (PS "private_key_jwt") false false (PS "RS256") None None None TPar None in
-  in_product c /\ flow_outcome c base_inp = FailAt Par.
+  in_product c /\ flow_outcome c base_inp = (if repaired_par_issuer_audience then Completed else FailAt Par).
 Proof. split; [in_prod|vm_compute; reflexivity]. Qed.
 Print Assumptions C12_refuted_par_jwt.
 
@@ -159,13 +164,14 @@ Print Assumptions C12_refuted_shadow.
 
 Theorem C12_refuted_par_claims :
   let c := mkCfg (PS "code") None (PS "client_secret_basic") false false (PS "RS256") None None None TPar None in
-  in_product c /\ flow_outcome c (mkInp false 32 false true true) = FailAt AuthzProcess /\ flow_outcome c base_inp = Completed.
+  in_product c /\ flow_outcome c (mkInp false 32 false true true) = (if repaired_par_request_class then Completed else FailAt AuthzProcess)
+  /\ flow_outcome c base_inp = Completed.
 Proof. split; [in_prod|split; vm_compute; reflexivity]. Qed.
 Print Assumptions C12_refuted_par_claims.
 
 (* the ID Token encryption a client registers is never applied by the provider, and the relying party insists on
    what it registered: the signed-only ID Token is rejected where it arrives *)
-Theorem C12_idt_enc_ignored : forall c, idt_encrypted c = false.
+Theorem C12_idt_enc_ignored : forall c, idt_encrypted c = (repaired_idt_enc && is_some (c_idt_enc c)).
 Proof. reflexivity. Qed.
 Print Assumptions C12_idt_enc_ignored.
 
@@ -174,8 +180,13 @@ Theorem C12_refuted_idt_enc :
                  None None TPlain None in
   let c' := mkCfg (PS "token") None (PS "client_secret_basic") false false (PS "RS256") (Some (PS "RSA-OAEP", PS "A128CBC-HS256"))
                  None None TPlain None in
-  in_product c /\ flow_outcome c base_inp = FailAt RpFinalize /\ in_product c' /\ flow_outcome c' base_inp = Completed.
-Proof. split; [in_prod|split; [vm_compute; reflexivity|split; [in_prod|vm_compute; reflexivity]]]. Qed.
+  in_product c /\ flow_outcome c base_inp = (if repaired_idt_enc then Completed else FailAt RpFinalize)
+  /\ in_product c' /\ flow_outcome c' base_inp = Completed
+  (* with the repair the AES key-wrap algorithms meet the secret-length limit for ID Tokens too *)
+  /\ flow_outcome (mkCfg (PS "code") None (PS "client_secret_basic") false false (PS "RS256") (Some (PS "A128KW", PS "A128GCM"))
+                          None None TPlain None) (mkInp false 56 false true false)
+     = (if repaired_idt_enc then FailAt TokenEp else FailAt RpFinalize).
+Proof. split; [in_prod|split; [vm_compute; reflexivity|split; [in_prod|split; vm_compute; reflexivity]]]. Qed.
 Print Assumptions C12_refuted_idt_enc.
 
 (* ---- artefacts: for EVERY response type both halves can be configured with, what the relying party reads from the
@@ -237,7 +248,7 @@ Proof. split; [in_prod|vm_compute; reflexivity]. Qed.
         clients, scopes, nonces, times and lifetimes.  Both clocks read `now`; see C12_rp_expiry_skew otherwise. *)
 Theorem C12_views_model : forall sub_of filter_scopes user client req_scope nonce now at_life idt_life asrc at_jwt,
   let s := authorize sub_of filter_scopes user client req_scope nonce now at_life idt_life in
-  (forall isrc, isrc <> SrcAuthz ->
+  (forall isrc, isrc <> SrcAuthz \/ repaired_idt_exp = true ->
      all_agree (all_views asrc isrc at_jwt s now now) = true
      /\ (forall v, In v (all_views asrc isrc at_jwt s now now) -> projects s v))
   /\ all_agree (map forget_idt_exp (all_views asrc SrcAuthz at_jwt s now now)) = true
@@ -252,7 +263,7 @@ Print Assumptions C12_views_model.
 (* asrc / isrc: where the relying party's access token / ID Token come from (none, authorization response, token
    response) - rp_artefact_sources gives them per response type.  Every flow whose ID Token (if any) comes from the
    token endpoint: all views agree, for every session record and time *)
-Theorem C12_views_agree : forall asrc isrc at_jwt s now, isrc <> SrcAuthz ->
+Theorem C12_views_agree : forall asrc isrc at_jwt s now, isrc <> SrcAuthz \/ repaired_idt_exp = true ->
   all_agree (all_views asrc isrc at_jwt s now now) = true.
 Proof. exact views_agree. Qed.
 Print Assumptions C12_views_agree.
@@ -260,14 +271,15 @@ Print Assumptions C12_views_agree.
 (* Full statement for flows whose ID Token is minted at the AUTHORIZATION endpoint (id_token, id_token token,
    code id_token token) is false of the faithful model:
      Theorem C12_views_agree_implicit_full : forall asrc at_jwt s now, all_agree (all_views asrc SrcAuthz at_jwt s now now) = true.
-   the session database records expires_at = 0 for such an ID Token. *)
+   the session database records expires_at = 0 for such an ID Token - unless repaired_idt_exp (then C12_views_agree
+   covers these flows as well and the witness below agrees). *)
 Theorem C12_views_agree_implicit_partial : forall asrc at_jwt s now,
   all_agree (map forget_idt_exp (all_views asrc SrcAuthz at_jwt s now now)) = true
   /\ all_agree [view_id_token s; view_rp asrc SrcAuthz s now now] = true.
 Proof. exact views_agree_implicit. Qed.
 Print Assumptions C12_views_agree_implicit_partial.
 
-Theorem C12_views_agree_implicit_refuted : exists s, all_agree (all_views SrcNone SrcAuthz false s 0 0) = false.
+Theorem C12_views_agree_implicit_refuted : exists s, all_agree (all_views SrcNone SrcAuthz false s 0 0) = repaired_idt_exp.
 Proof. exact views_agree_implicit_refuted. Qed.
 Print Assumptions C12_views_agree_implicit_refuted.
 
